@@ -592,7 +592,8 @@ func (in *Interp) prim(name string, args []vread.Expr, env *Env, sc scope) Val {
 	case "time.Sleep":
 		in.argc(name, args, 1)
 		ev(args[0])
-		in.syncPoint("sleep")
+		// not a scheduling point: for data-race-free programs a delay only changes which
+		// interleaving of the synchronisation operations happens, and all of those are explored
 		return VUnit{}
 	case "NewProph":
 		return VExt{Kind: "proph"}
